@@ -123,6 +123,9 @@ pub mod proofs {
         assert!(same_bytes(b.contract(), addr.as_str()));
         assert!(b.funds().is_empty());
         let amount: u128 = kani::any();
+        // funds are SET, not accumulated: a second with_funds replaces the first
+        let first: u128 = kani::any();
+        let b = b.with_funds(vec![Coin { denom: String::new(), amount: Uint128::new(first) }, Coin { denom: String::new(), amount: Uint128::new(first) }]);
         let b = core::mem::ManuallyDrop::new(b.with_funds(vec![Coin { denom: String::new(), amount: Uint128::new(amount) }]));
         assert!(same_bytes(b.contract(), addr.as_str()));
         assert!(b.funds().len() == 1 && b.funds()[0].amount.u128() == amount);
@@ -158,7 +161,11 @@ pub mod proofs {
         let mut b = InstantiateBuilder::new(Binary::new(vec![m]), code);
         if with_label { b = b.with_label("lb"); }
         if with_admin { b = b.with_admin("ad".to_owned()); }
-        if with_funds { b = b.with_funds(vec![Coin { denom: String::new(), amount: Uint128::new(amount) }]); }
+        if with_funds {
+            // set, not accumulated
+            b = b.with_funds(vec![Coin { denom: String::new(), amount: Uint128::new(1) }, Coin { denom: String::new(), amount: Uint128::new(2) }]);
+            b = b.with_funds(vec![Coin { denom: String::new(), amount: Uint128::new(amount) }]);
+        }
         let w = core::mem::ManuallyDrop::new(b.build());
         match &*w {
             WasmMsg::Instantiate { code_id, msg, admin, label, funds } => {
@@ -179,11 +186,13 @@ pub mod proofs {
     fn k_instantiate_builder2() {
         use sylvia::builder::instantiate::InstantiateBuilder;
         let m: u8 = kani::any(); let code: u64 = kani::any(); let salt: [u8; 2] = kani::any();
+        // salt of 0, 1 or 2 symbolic bytes: an empty salt is still the salted form
+        let sl: usize = kani::any(); kani::assume(sl <= 2);
         let with_label: bool = kani::any(); let with_admin: bool = kani::any();
         let mut b = InstantiateBuilder::new(Binary::new(vec![m]), code);
         if with_label { b = b.with_label("lb"); }
         if with_admin { b = b.with_admin("ad".to_owned()); }
-        let w = core::mem::ManuallyDrop::new(b.build2(Binary::new(salt.to_vec())));
+        let w = core::mem::ManuallyDrop::new(b.build2(Binary::new(salt[..sl].to_vec())));
         match &*w {
             WasmMsg::Instantiate2 { code_id, msg, admin, label, funds, salt: s2 } => {
                 assert!(*code_id == code);
@@ -191,7 +200,9 @@ pub mod proofs {
                 match admin { Some(a) => assert!(with_admin && same_bytes(a, "ad")), None => assert!(!with_admin) }
                 if with_label { assert!(same_bytes(label, "lb")); } else { assert!(label.is_empty()); }
                 assert!(funds.is_empty());
-                assert!(s2.as_slice().len() == 2 && s2.as_slice()[0] == salt[0] && s2.as_slice()[1] == salt[1]);
+                assert!(s2.as_slice().len() == sl);
+                assert!(sl < 1 || s2.as_slice()[0] == salt[0]);
+                assert!(sl < 2 || s2.as_slice()[1] == salt[1]);
             }
             _ => assert!(false),
         }
